@@ -346,8 +346,10 @@ def check(pid, P, tier, seed, work, replay, t0):
             # the driver is needed for the search even when proofs fail
             okd, outd, _ = lake_build(["mdsdrv"])
             if not okd:
-                print(outd)
-                raise SystemExit("driver does not build:\n" + outd[-3000:])
+                # the regenerated facts no longer fit the model at all: nothing can be executed, the tie is broken
+                errs = re.findall(r"^error: .*$", outd, flags=re.M)
+                broken.append(("lake build mdsdrv (driver)", "\n".join(errs[:20]) or outd[-2000:]))
+                return report_violation(pid, P, tier, seed, t0, work, None, broken, None, {}, theorems, [], [], 0, 0, notes)
         if ok:
             aud, aud_out = audit(pid, theorems, imports, work)
         else:
@@ -436,7 +438,7 @@ def check(pid, P, tier, seed, work, replay, t0):
         for sh, ops_p, p in procs:
             _, err = p.communicate()
             if p.returncode != 0:
-                raise SystemExit("generator failed for %s: %s" % (stream, err))
+                broken.append(("harness generator %s" % stream, (err or "")[-1500:]))
         runs = []
         for sh, ops_p, _ in procs:
             tr_p = ops_p[:-4] + ".trace"
@@ -518,7 +520,7 @@ def check(pid, P, tier, seed, work, replay, t0):
             print("KNOWN-FINDING: property=%s %s %s" % (pid, k["id"], k["what"]))
         else:
             notes.append("known finding %s: witness did not fail on this run" % k["id"])
-    write_evidence(pid, P, tier, seed, t0, theorems, discharged, stats_all, samples, evaluations, nontrivial, total_lines, 0, notes, known_hits, explained, facts if False else None)
+    write_evidence(pid, P, tier, seed, t0, theorems, discharged, stats_all, samples, evaluations, nontrivial, total_lines, 0, notes, known_hits, explained, facts)
     log("%s %s: ok — %d/%d obligations, %d cases, %d lines compared, %.1fs" % (pid, tier, len(discharged), len(theorems), evaluations, total_lines, time.time() - t0))
     return 0
 
@@ -586,6 +588,7 @@ def write_evidence(pid, P, tier, seed, t0, theorems, discharged, stats_all, samp
         "known_finding_hits": known_hits,
         "cases_explained_by_known_findings": explained,
         "notes": notes,
+        "gen_modules": {g: ((facts or {}).get("hashes") or {}).get(g) for g in P.get("gen", [])},
     }
     ev = {
         "property_id": pid, "tier": tier, "seed": seed, "level": P.get("level", "proof"),
